@@ -247,15 +247,12 @@ def playback(xt_dir, hdir, harness, harness_file, timeout=900, harness_modpath=N
     except subprocess.TimeoutExpired:
         return dict(test_src=None, reproduced=False, panic=None, output='playback generation timed out')
     out = p.stdout
-    m = re.search(r'```\n?(.*?)```', out, re.S)
-    if not m:
-        # older format: test between "#[test]" and the closing brace at column 0
-        m2 = re.search(r'(/// Test generated for harness.*?\n}\n)', out, re.S) or re.search(r'(#\[test\]\nfn kani_concrete_playback.*?\n}\n)', out, re.S)
-        if not m2:
-            return dict(test_src=None, reproduced=False, panic=None, output=out[-4000:])
-        test_src = m2.group(1)
-    else:
-        test_src = m.group(1)
+    # Kani prints one unit test per failed check AND per satisfied cover; take a test generated for a failed check
+    blocks = re.findall(r'(/// Test generated for harness.*?\n}\n)', out, re.S)
+    if not blocks:
+        return dict(test_src=None, reproduced=False, panic=None, output=out[-4000:])
+    non_cover = [b for b in blocks if not re.search(r'Check for `cover`', b)]
+    test_src = (non_cover or blocks)[0]
     tn = re.search(r'fn (kani_concrete_playback_\w+)', test_src)
     if not tn:
         return dict(test_src=test_src, reproduced=False, panic=None, output=out[-4000:])
@@ -297,8 +294,9 @@ def run_playback_test(xt_dir, test_name, test_src, timeout=900):
     # stubs, so pipecheck's real exit path may legitimately raise it
     sig = re.search(r'\(signal: (4|6|7|11)\b[^\n]*', out)
     reproduced = bool(failed and ran and pm) or bool(sig)
+    errs = '\n'.join(re.findall(r'(?m)^error(?:\[E\d+\])?: .*(?:\n.*){0,6}', out)[:6])
     return dict(test_src=test_src, test_name=test_name, reproduced=reproduced,
-                panic=panic or (sig.group(0) if sig else None), output=out[-4000:])
+                panic=panic or (sig.group(0) if sig else None), output=(errs + '\n...\n' if errs else '') + out[-3000:])
 
 
 def native_search(repo, scratch, src_rel, native_file, timeout=600):
